@@ -882,3 +882,18 @@ _c11_base7 = contracts
 
 def contracts():
     return _c11_base7() + [install_slots_contract()]
+
+
+# a Parameter object assigned to a class attribute after class creation goes through the same merge of
+# inherited attributes as a declaration; when the merge refuses it (an inherited default that violates its
+# constraints) it must not stay on the class (metaclass __setattr__ is verified for C13)
+_c11_base8 = contracts
+
+
+def contracts():
+    from contracts import c13 as _c13
+    c = _c13.metaclass_setattr_contract()
+    c.prop = PROP
+    c.clause_prefixes = ["C11/"]
+    c.name = "ParameterizedMetaclass.__setattr__[a Parameter object refused by the merge]"
+    return _c11_base8() + [c]
